@@ -12,17 +12,18 @@ EXTENDS CddTypes, TLC, Json
 
 CONSTANTS MaxParams, Enabled, Shard, NShards
 
-JsonTyps == {"int", "float", "str", "bool", "dict", "list", "Opt_int", "Opt_float", "Opt_str", "Opt_bool", "Opt_dict", "Lit"}
+JsonTyps == {"int", "float", "str", "bool", "dict", "list", "Opt_int", "Opt_float", "Opt_str", "Opt_bool", "Opt_dict", "Lit", "Lit2", "Opt_Lit2"}
+Lits == {"Lit", "Lit2"}
 JCompat(t, d) == Compat(t, d) \/ (d = "absent")
 JParams == {p \in [typ : JsonTyps, def : Defs \ {"code"}, doc : {"plain", "absent"}] :
               Compat(p.typ, p.def) /\ (p.typ = "list" => p.def = "absent")}
-SmallParams == {p \in JParams : p.typ \in {"int", "Opt_str", "Lit"} /\ p.doc = "plain"}
+SmallParams == {p \in JParams : p.typ \in {"int", "Opt_str", "Lit", "Opt_Lit2"} /\ p.doc = "plain"}
 NoRet == [typ |-> "none", def |-> "absent", doc |-> "absent"]
 Rets == {NoRet, [typ |-> "int", def |-> "absent", doc |-> "plain"]}
 IDocs == {"one", "absent"}
 ParamSeqs == {<<>>} \cup {<<p>> : p \in JParams} \cup (IF MaxParams >= 2 THEN {<<p, r>> : p \in JParams, r \in SmallParams} ELSE {})
 
-JType(t) == CASE Base(t) = "int" -> "integer" [] Base(t) = "float" -> "number" [] Base(t) \in {"str", "Lit"} -> "string"
+JType(t) == CASE Base(t) = "int" -> "integer" [] Base(t) = "float" -> "number" [] Base(t) \in {"str", "Lit", "Lit2"} -> "string"
               [] Base(t) = "bool" -> "boolean" [] Base(t) = "dict" -> "object" [] Base(t) = "list" -> "array"
 JsonTypeNames == {"integer", "number", "string", "boolean", "object", "array", "null"}
 Conforms(d, jt) == \/ d \in {"absent"} 
@@ -35,7 +36,8 @@ Conforms(d, jt) == \/ d \in {"absent"}
 on(d) == d \in Enabled
 \* ---- Emit ------------------------------------------------------------------------------------------------
 EmitP(p) == [type |-> JType(p.typ),
-             pattern |-> IF Base(p.typ) # "Lit" THEN "none" ELSE IF on("literal_pattern_unanchored") THEN "unanchored" ELSE "anchored",
+             pattern |-> IF Base(p.typ) \notin Lits THEN "none" ELSE IF on("literal_pattern_unanchored") THEN "unanchored" ELSE "anchored",
+             members |-> IF Base(p.typ) \in Lits THEN Base(p.typ) ELSE "none",
              default |-> IF p.def = "None" THEN "absent" ELSE p.def,        \* a None default is not written (null is not in the type)
              description |-> p.doc]
 Emit(i) == [description |-> IF i.doc = "absent" /\ i.ret = NoRet
@@ -47,14 +49,14 @@ SchemaOK(s, i) == /\ s.description \in {"text", "empty"}
                   /\ \A k \in 1..Len(s.props) : s.props[k].type \in JsonTypeNames
                   /\ s.required = {k \in 1..Len(i.params) : ~IsOpt(i.params[k].typ)}
                   /\ \A k \in 1..Len(s.props) : Conforms(s.props[k].default, s.props[k].type)
-                  /\ \A k \in 1..Len(s.props) : (Base(i.params[k].typ) = "Lit") => s.props[k].pattern = "anchored"
+                  /\ \A k \in 1..Len(s.props) : (Base(i.params[k].typ) \in Lits) => s.props[k].pattern = "anchored"
 
 \* ---- Parse -------------------------------------------------------------------------------------------------
-TypeBack(jt, lit) == IF lit THEN "Lit" ELSE CASE jt = "integer" -> "int" [] jt = "number" -> "float" [] jt = "string" -> "str"
+TypeBack(jt, lit) == IF lit # "none" THEN lit ELSE CASE jt = "integer" -> "int" [] jt = "number" -> "float" [] jt = "string" -> "str"
                                               [] jt = "boolean" -> "bool" [] jt = "object" -> "dict" [] jt = "array" -> "list"
 ParseP(e, required, orig) ==
-  LET base == TypeBack(e.type, e.pattern # "none")
-      t == IF required THEN base ELSE IF base = "Lit" THEN "Opt_Lit" ELSE OptOf(base)
+  LET base == TypeBack(e.type, e.members)
+      t == IF required THEN base ELSE OptOf(base)
       \* the ideal parser restores the None default of an Optional property that has no default written
       d == IF e.default = "absent" /\ ~required /\ orig.def = "None" /\ ~on("none_default_lost") THEN "None" ELSE e.default
   IN [typ |-> t, def |-> d, doc |-> e.description]
@@ -62,7 +64,7 @@ Parse(s, i) == [doc |-> i.doc, params |-> [k \in 1..Len(s.props) |-> ParseP(s.pr
 
 Fired(i) == {d \in Enabled :
                \/ (d = "empty_description_is_null" /\ i.doc = "absent" /\ i.ret = NoRet)
-               \/ (d = "literal_pattern_unanchored" /\ \E k \in 1..Len(i.params) : Base(i.params[k].typ) = "Lit")
+               \/ (d = "literal_pattern_unanchored" /\ \E k \in 1..Len(i.params) : Base(i.params[k].typ) \in Lits)
                \/ (d = "none_default_lost" /\ \E k \in 1..Len(i.params) : i.params[k].def = "None")
                \/ (d = "list_type_unsupported" /\ \E k \in 1..Len(i.params) : i.params[k].typ = "list")}
 
